@@ -15,7 +15,11 @@ Driver of C13.  Ops (one per line):
 * `udp  <signer> <reqmac> <request_time> <reqid> (<buf> <rdok> <parseok> <qok>)*`
       the datagrams received by the real `UdpClientStream` (with a signer) for one signed request
       (`udpRecv`); `<signer>`'s `macok` is the verdict for the datagram that reaches the verifier
-* the last token of `srv` is the store: `0`/`1` sqlite without/with journal, `m` in-memory, `f` file
+* the last token of `srv` is the store: `0`/`1` sqlite without/with journal, `m` in-memory, `f` file,
+  `c` sqlite built by `try_from_config` (zone file, key files), `r` the same re-opened from its journal,
+  `s` / `e` sqlite with zone type Secondary / External
+* an empty `<reqmac>` (`-`) in `udp` / `begin mseq` lines: the request was not signed (ordinary query with
+  a signer configured): no verifier (`udpRecvPlain`, `muxStepPlain`)
 * `begin vseq <signer> <reqmac> <request_time> <req>` / `vmsg <buf> <rdok> <parseok> <macok>` … / `end`
       ONE `TSigVerifier` fed a sequence of messages; the driver threads the model's `Verifier`
       (`Verifier.verify` per message = `Verifier.verifySeq` over the block)
@@ -33,7 +37,7 @@ namespace HickoryVerif.Drv.C13
 open HickoryVerif HickoryVerif.Drv HickoryVerif.Tsig
 
 /-- the verifier of the `vseq` / `mseq` block being replayed, if any, and the request id -/
-abbrev State := Option (Verifier × Nat)
+abbrev State := Option (Option Verifier × Nat)
 def init : State := none
 
 def parseBool (s : String) : Option Bool :=
@@ -98,6 +102,7 @@ def handle (toks : List String) : Option String :=
       | _ => none
     let ds ← parseDgrams dgrams
     let v : Verifier := { signer := sg, previous := reqmac, remoteTime := 0, requestTime := qt }
+    if reqmac.isEmpty then pure (if udpRecvPlain reqid 3 ds then "ok ? ?" else "err") else
     pure (match udpRecv v reqid 3 ds with
       | .ok (some v') => s!"ok {toHex v'.previous} {v'.remoteTime}"
       | .ok none => "err"
@@ -122,11 +127,13 @@ def handle (toks : List String) : Option String :=
     let sgs ← parseSigners sgs; let now ← now.toNat?
     let buf ← parseHex buf; let rdok ← parseBool rdok
     let cfg : ZoneCfg := { origin := origin, allowUpdate := au, axfr := pol, signers := sgs,
-                           inMemory := (_journal == "m" || _journal == "f") }
+                           inMemory := (_journal == "m" || _journal == "f"),
+                           zoneType := (if _journal == "s" then 1 else if _journal == "e" then 2 else 0) }
     let id := (rd16 buf 0).getD 0
     pure (match serve cfg buf now rdok with
       | .ok none => "noparse"
-      | .ok (some d) =>
+      | .ok (some d0) =>
+        let d := respond now d0
         match d.kind with
         | .other => "other"
         | k => s!"{showKind k} eff={showBool d.effect} rc={d.rcode} rtsig={showResp id now d.resp}"
@@ -139,33 +146,37 @@ def step (s : State) (toks : List String) : State × String :=
   | ["begin", "vseq", sg, reqmac, qt, _req] =>
     match parseSigner sg, parseHex reqmac, qt.toNat? with
     | some sg, some reqmac, some qt =>
-      (some ({ signer := sg, previous := reqmac, remoteTime := 0, requestTime := qt }, 0), "ok")
+      (some (some { signer := sg, previous := reqmac, remoteTime := 0, requestTime := qt }, 0), "ok")
     | _, _, _ => (none, "bad-op")
   | ["begin", "mseq", sg, reqmac, qt, reqid, _kinds] =>
     match parseSigner sg, parseHex reqmac, qt.toNat?, reqid.toNat? with
     | some sg, some reqmac, some qt, some reqid =>
-      (some ({ signer := sg, previous := reqmac, remoteTime := 0, requestTime := qt }, reqid), "ok")
+      -- an empty request MAC: the request was not signed (`should_sign_message` false), no verifier
+      if reqmac.isEmpty then (some (none, reqid), "ok") else
+      (some (some { signer := sg, previous := reqmac, remoteTime := 0, requestTime := qt }, reqid), "ok")
     | _, _, _, _ => (none, "bad-op")
   | ["mmsg", _kind, buf, rdok, pok, macok] =>
     match s, parseHex buf, parseBool rdok, parseBool pok, parseBool macok with
-    | some (v, rid), some buf, some rdok, some pok, some macok =>
+    | some (some v, rid), some buf, some rdok, some pok, some macok =>
       let v1 : Verifier := { v with signer := { v.signer with macOK := fun _ _ => macok } }
       match muxStep v1 rid buf rdok pok with
-      | .ok (v', .ok) => (some (v', rid), s!"ok {toHex v'.previous} {v'.remoteTime}")
-      | .ok (v', .err) => (some (v', rid), "err")
-      | .ok (v', .dropped) => (some (v', rid), "drop")
-      | .err => (some (v, rid), "err")
-      | .panic m => (some (v, rid), "panic " ++ m)
+      | .ok (v', .ok) => (some (some v', rid), s!"ok {toHex v'.previous} {v'.remoteTime}")
+      | .ok (v', .err) => (some (some v', rid), "err")
+      | .ok (v', .dropped) => (some (some v', rid), "drop")
+      | .err => (some (some v, rid), "err")
+      | .panic m => (some (some v, rid), "panic " ++ m)
+    | some (none, rid), some buf, some _, some pok, some _ =>
+      (s, match muxStepPlain rid buf pok with | .ok => "ok ? ?" | .err => "err" | .dropped => "drop")
     | _, _, _, _, _ => (s, "bad-op")
   | ["end"] => (none, "ok")
   | ["vmsg", buf, rdok, pok, macok] =>
     match s, parseHex buf, parseBool rdok, parseBool pok, parseBool macok with
-    | some (v, rid), some buf, some rdok, some pok, some macok =>
+    | some (some v, rid), some buf, some rdok, some pok, some macok =>
       let v1 : Verifier := { v with signer := { v.signer with macOK := fun _ _ => macok } }
       match v1.verify buf rdok pok with
-      | .ok v' => (some (v', rid), s!"ok {toHex v'.previous} {v'.remoteTime}")
-      | .err => (some (v, rid), "err")
-      | .panic m => (some (v, rid), "panic " ++ m)
+      | .ok v' => (some (some v', rid), s!"ok {toHex v'.previous} {v'.remoteTime}")
+      | .err => (some (some v, rid), "err")
+      | .panic m => (some (some v, rid), "panic " ++ m)
     | _, _, _, _, _ => (s, "bad-op")
   | _ => (s, (handle toks).getD "bad-op")
 
